@@ -102,7 +102,14 @@ def add_metrics(rng, gs):
         names = []
         for p in poss:
             nm = f"d{a.lower()}_{SUFFIX[p]}"
-            gs["vars"][nm] = {"dims": [ax["pos"][p]], "data": {"gen": "dyadic", "seed": rng.randrange(10**6)},
+            mdims = [ax["pos"][p]]
+            if rng.random() < 0.25:
+                # a metric that also varies along other axes (e.g. dx(y, x), dz(z, y, x))
+                for b, bx in gs["axes"].items():
+                    if b != a and rng.random() < 0.7:
+                        bp = "center" if rng.random() < 0.8 else rng.choice(list(bx["pos"]))
+                        mdims.insert(0, bx["pos"][bp])
+            gs["vars"][nm] = {"dims": mdims, "data": {"gen": "dyadic", "seed": rng.randrange(10**6)},
                               "coord": rng.random() < 0.5}
             names.append(nm)
         metrics[a] = names
@@ -142,8 +149,12 @@ def gen_input(rng, gs, op_axes, need_all_axes=False, name="q"):
         data["nan_seed"] = rng.randrange(10**6)
     if rng.random() < 0.12:
         data["dtype"] = "float32"
-    return {"dims": dims, "data": data, "name": name if rng.random() < 0.8 else None,
-            "attrs": {"units": "m"} if rng.random() < 0.3 else {}}, posof
+    spec = {"dims": dims, "data": data, "name": name if rng.random() < 0.8 else None,
+            "attrs": {"units": "m"} if rng.random() < 0.3 else {}}
+    if rng.random() < 0.3:
+        # coordinates the grid dataset knows nothing about: a scalar one (as left by .isel) and one along a dimension
+        spec["extra_coords"] = {"scalar": 3.5, "along": rng.choice(dims)}
+    return spec, posof
 
 
 def gen_chunks(rng, dims, sizes, allowed=None):
@@ -174,7 +185,57 @@ def call_kwargs(rng, gs, axes):
     return kw
 
 
+def gen_metric_lazy_case(rng, tier):
+    """Family: metric-aware multi-axis operations on a lazily chunked grid dataset whose chunking is
+    independent of the data's (no inner/outer positions, so nothing here is exempt)."""
+    names = rng.sample(["X", "Y", "Z"], rng.choice([2, 2, 3]))
+    axes = {}
+    for a in names:
+        pos = ["center"] + rng.sample(["left", "right"], rng.choice([1, 1, 2]))
+        axes[a] = {"n": rng.randint(2, 6), "pos": {p: DIMNAME[a] + SUFFIX[p] for p in pos}}
+    extra = {d: rng.randint(1, 3) for d in ("t",) if rng.random() < 0.5}
+    words = ["fill", "extend", "periodic"]
+    gs = {"axes": axes, "extra": extra, "vars": {},
+          "grid": {"periodic": False, "boundary": {a: rng.choice(words) for a in names}}}
+    metrics = {}
+    for a, ax in axes.items():
+        metrics[a] = []
+        for p, d in ax["pos"].items():
+            nm = f"d{a.lower()}_{SUFFIX[p]}"
+            gs["vars"][nm] = {"dims": [d], "data": {"gen": "dyadic", "seed": rng.randrange(10**6)}, "coord": rng.random() < 0.5}
+            metrics[a].append(nm)
+    gs["grid"]["metrics"] = metrics
+    k = rng.choice([2, 2, len(names)])
+    op_axes = rng.sample(names, k)
+    inp, posof = gen_input(rng, gs, op_axes, need_all_axes=rng.random() < 0.5)
+    opname = rng.choice(STENCIL_OPS + ["cumsum", "derivative", "cumint", "integrate", "average"])
+    kw = {}
+    if opname in ("integrate", "average"):
+        op = {"name": opname, "axis": op_axes, "kw": {}}
+    else:
+        to = {a: rng.choice(valid_to(axes[a], posof[a])) for a in op_axes}
+        if rng.random() < 0.7:
+            kw["to"] = to
+        if opname in STENCIL_OPS + ["cumsum"]:
+            kw["metric_weighted"] = rng.choice([{a: [a] for a in op_axes}, {a: [a] for a in op_axes}, [op_axes[0]]])
+        if rng.random() < 0.4:
+            kw["boundary"] = rng.choice(words)
+        if opname == "derivative":
+            op_axes = op_axes[:1]
+            if "to" in kw:
+                kw["to"] = {a: v for a, v in kw["to"].items() if a in op_axes}
+        op = {"name": opname, "axis": op_axes[0] if opname == "derivative" else op_axes, "kw": kw}
+    spec = {"gspec": gs, "kind": "simple", "input": inp, "op": op}
+    sizes = worlds.dim_sizes(gs)
+    spec["chunks"] = gen_chunks(rng, inp["dims"], sizes)
+    alld = sorted({d for v in gs["vars"].values() for d in v["dims"]})
+    spec["lazy_ds"] = gen_chunks(rng, alld, sizes)
+    return spec
+
+
 def gen_simple_case(rng, tier):
+    if rng.random() < 0.08:
+        return gen_metric_lazy_case(rng, tier)
     gs = gen_simple_grid(rng, tier)
     axn = list(gs["axes"])
     r = rng.random()
@@ -224,10 +285,11 @@ def gen_simple_case(rng, tier):
                 kw["to"].setdefault(a, None)
         if opname in ("cumsum", "cumint", "derivative"):
             kw.pop("keep_coords", None) if opname != "cumsum" else None
-        if has_metrics and opname in STENCIL_OPS + ["cumsum"] and rng.random() < 0.4:
+        if has_metrics and opname in STENCIL_OPS + ["cumsum"] and rng.random() < 0.5:
             mw_axes = [a for a in op_axes if a in gs["grid"]["metrics"]]
             if mw_axes:
-                kw["metric_weighted"] = rng.choice([mw_axes, {a: [a] for a in mw_axes}, mw_axes[0]])
+                kw["metric_weighted"] = rng.choice([mw_axes, {a: [a] for a in mw_axes}, {a: [a] for a in mw_axes},
+                                                    mw_axes[0]])
         if opname == "derivative":
             op_axes = op_axes[:1]
             axis = op_axes[0]
@@ -240,7 +302,7 @@ def gen_simple_case(rng, tier):
     sizes = worlds.dim_sizes(gs)
     spec["chunks"] = gen_chunks(rng, inp["dims"], sizes)
     spec["lazy_ds"] = None
-    if gs["vars"] and rng.random() < 0.5:
+    if gs["vars"] and rng.random() < (0.8 if "metric_weighted" in op.get("kw", {}) else 0.5):
         alld = sorted({d for v in gs["vars"].values() for d in v["dims"]})
         spec["lazy_ds"] = gen_chunks(rng, alld, sizes)
     if opname in STENCIL_OPS + ["cumsum"] and rng.random() < 0.3:
@@ -394,7 +456,49 @@ def gen_face_case(rng, tier):
         allowed = set(pre)
         spec["chunks"] = gen_chunks(rng, spec["input"]["dims"], sizes, allowed)
         spec["chunks2"] = dict(spec["chunks"]) if rng.random() < 0.6 else gen_chunks(rng, spec["input2"]["dims"], sizes, allowed)
-    else:
+    if rng.random() < 0.2:
+        # a user grid ufunc with a halo on both axes at once (reads the halo corner cells)
+        uaxes = rng.choice([["X", "Y"], ["Y", "X"]])
+        vec = rng.random() < 0.3
+        frompos, topos, bw, weights = {}, {}, {}, []
+        comp = rng.choice(["X", "Y"])
+        for i, a in enumerate(uaxes):
+            if vec:
+                fp = other if a == comp else "center"
+            else:
+                fp = rng.choice(list(axes[a]["pos"]))
+            tp = rng.choice(list(axes[a]["pos"]))
+            l, u = rng.randint(0, 1), rng.randint(0, 1)
+            frompos[a], topos[a] = fp, tp
+            bw[f"A{i}"] = [l, u]
+            weights.append([rng.randint(-2, 3) for _ in range(l + u + 1)])
+        cdims = pre + [axes["Y"]["pos"][frompos["Y"]], axes["X"]["pos"][frompos["X"]]]
+        if rng.random() < 0.3:
+            rng.shuffle(cdims)
+        for stale in ("vector", "input2", "chunks2", "pair"):
+            spec.pop(stale, None)
+        spec["input"] = {"dims": cdims, "data": {"gen": "randint", "seed": rng.randrange(10**6), "lo": -40, "hi": 40},
+                         "name": "c"}
+        if vec:
+            odims = pre + ([axes["Y"]["pos"][other], "xc"] if comp == "X" else ["yc", axes["X"]["pos"][other]])
+            spec["input2"] = {"dims": odims, "data": {"gen": "randint", "seed": rng.randrange(10**6), "lo": -40, "hi": 40},
+                              "name": "o"}
+            spec["vector"] = {"axis": comp, "other_axis": "Y" if comp == "X" else "X"}
+        in_arg = ",".join(f"A{i}:{frompos[a]}" for i, a in enumerate(uaxes))
+        out_arg = ",".join(f"A{i}:{topos[a]}" for i, a in enumerate(uaxes))
+        mode = rng.choice([("parallelized", False), ("allowed", True)])
+        items = list(bw.items())
+        if rng.random() < 0.5:
+            items.reverse()
+        ukw = {"axis": [list(uaxes)], "signature": f"({in_arg})->({out_arg})", "boundary_width": dict(items),
+               "dask": mode[0], "map_overlap": mode[1]}
+        ukw.update({k2: v for k2, v in kw.items() if k2 != "keep_coords"})
+        spec["op"] = {"name": "ufunc", "via": rng.choice(["apply", "decorator"]), "weights": weights, "kw": ukw, "nin": 1,
+                      "frompos": frompos, "topos": topos}
+        spec["chunks"] = gen_chunks(rng, cdims, sizes, set(pre))
+        if vec:
+            spec["chunks2"] = gen_chunks(rng, spec["input2"]["dims"], sizes, set(pre))
+    elif not vector:
         posx = rng.choice(list(axes["X"]["pos"]))
         posy = rng.choice(list(axes["Y"]["pos"]))
         dims = pre + [axes["Y"]["pos"][posy], axes["X"]["pos"][posx]]
@@ -478,6 +582,9 @@ def call_op(grid, op, da, da2=None, vector=None, eager=False):
         weights = op["weights"]
         func = make_stencil(weights)
         args = [da] + ([da2] if op.get("nin", 1) == 2 else [])
+        if vector:
+            args = [{vector["axis"]: da}]
+            kw["other_component"] = {vector["other_axis"]: da2}
         if op.get("via") == "decorator":
             deco_kw = {k: kw.pop(k) for k in ("signature", "boundary_width") if k in kw}
             for k in ("dask", "map_overlap"):
@@ -499,6 +606,10 @@ def call_op(grid, op, da, da2=None, vector=None, eager=False):
 def build_inputs(spec, ds):
     sizes = dict(ds.sizes)
     da = worlds.attach_coords(worlds.build_da(sizes, spec["input"]), ds)
+    ec = spec["input"].get("extra_coords")
+    if ec:
+        d = ec["along"] if ec["along"] in da.dims else da.dims[0]
+        da = da.assign_coords(time0=ec["scalar"], **{"row_id": (d, np.arange(sizes[d]) * 10.0)})
     da2 = None
     if spec.get("input2"):
         da2 = worlds.attach_coords(worlds.build_da(sizes, spec["input2"]), ds)
